@@ -261,7 +261,9 @@ impl<'a> P<'a> {
             }
         }
         let scope = enter(outer, &e);
-        let (ep, el) = split(&qn)?;
+        // ":a" is a Name, not a QName: no verdict on the element as such, but its tags still have to match as written
+        let colon_name = qn.len() > 1 && qn.starts_with(':') && !qn[1..].contains(':');
+        let (ep, el) = if colon_name { (String::new(), qn[1..].to_string()) } else { split(&qn)? };
         if ep == "xmlns" {
             return Err(E::Unk("xmlns prefix on element".into()));
         }
@@ -291,10 +293,12 @@ impl<'a> P<'a> {
             }
             e.attrs.push(A::attr_node(&ns, &al, &val));
         }
-        if empty {
-            return Ok(e);
+        if !empty {
+            self.content(&mut e, &scope, depth, Some(&qn))?;
         }
-        self.content(&mut e, &scope, depth, Some(&qn))?;
+        if colon_name {
+            return Err(E::Unk("odd qname".into()));
+        }
         Ok(e)
     }
 
